@@ -1054,9 +1054,20 @@ def r4_positions_inside_backend_variable(ctx, rid):
         raise AnalysisError(f"{rid}: _get_var_idx reads unexpected tables {tables}")
 
 
+
+def r5_index_lists_applied(ctx, rid):
+    """The node named in a path is reached through the per-node index lists of the merged vector: an index list may be dropped
+    only when it is provably the identity (same rules as C04-R6 and the shared permutation lint)."""
+    from .c04 import r6_indexing_dropped_only_for_identity
+    from ._identity_lint import permutation_test_as_identity
+    r6_indexing_dropped_only_for_identity(ctx, rid)
+    permutation_test_as_identity(ctx, rid)
+
+
 RULES = [
     ("C06-R1", r1_namespaces, 22),
     ("C06-R2", r2_label_data_lockstep, 4),
     ("C06-R3", r3_same_path, 9),
     ("C06-R4", r4_positions_inside_backend_variable, 3),
+    ("C06-R5", r5_index_lists_applied, 2),
 ]
